@@ -14,7 +14,8 @@ fn networks(cfg: i64) -> Vec<Vec<(&'static str, &'static str, u8)>> {
         0 => vec![vec![("laixer", "hcu", 0x4a)]],
         1 => vec![vec![("kübler", "encoder", 0x6a), ("kübler", "encoder", 0x6b), ("kübler", "encoder", 0x6c), ("kübler", "encoder", 0x6d), ("kübler", "inclinometer", 0x7a)],
                   vec![("volvo", "d7e", 0x00), ("laixer", "vcu", 0x12), ("laixer", "hcu", 0x4a)]],
-        2 => vec![vec![("laixer", "hcu", 0x4a), ("kübler", "encoder", 0x6a), ("laixer", "hcu", 0x4b)]],
+        // cfg 7: the same network, but the interface is dead (every write fails) from just before the termination request on
+        2 | 7 => vec![vec![("laixer", "hcu", 0x4a), ("kübler", "encoder", 0x6a), ("laixer", "hcu", 0x4b)]],
         3 => vec![vec![("kübler", "inclinometer", 0x7a), ("j1939", "ecu", 0x20)]],
         _ => vec![vec![("laixer", "hcu", 0x4a), ("laixer", "vcu", 0x12)]],   // cfg 4: with 100 ms timeouts (silent units); cfg 5: congested bus at start-up; cfg 6: bus stalled for 300 ms right at the signal
     }
@@ -71,6 +72,9 @@ pub fn exec(c: &[i64]) -> Vec<i64> {
     // inside the stop budget; the teardown frames must still arrive
     let stalled = cfg == 6;
     if stalled { for b in &buses { b.congest(); } std::thread::sleep(Duration::from_millis(30)); }
+    // cfg 7: the interface goes away for good (what BindsTo=...can0.device stops the unit for): nothing can be
+    // delivered any more, the daemon still has to stop cleanly inside the budget
+    if cfg == 7 { for b in &buses { b.fail_sends(); } std::thread::sleep(Duration::from_millis(20)); }
     let t0 = Instant::now();
     unsafe { libc::kill(child.id() as i32, sig); }
     if stalled { std::thread::sleep(Duration::from_millis(300)); for b in &buses { b.release(); } }
@@ -106,10 +110,10 @@ pub fn exec(c: &[i64]) -> Vec<i64> {
 pub fn gen(o: &Opts, sink: &mut dyn FnMut(Vec<i64>, String)) {
     let mut k: u64 = 0;
     let mut rng = Rng::new(o.seed, 16);
-    let n = if o.tier_thorough { 210 } else { 21 };
+    let n = if o.tier_thorough { 240 } else { 24 };
     for j in 0..n {
         k += 1; if !mine(o, k) { continue; }
-        let cfg = (j % 7) as i64;
+        let cfg = (j % 8) as i64;
         let delay = *rng.pick(&[0i64, 5, 50, 500, 12, 27]);
         let delay = if !o.tier_thorough && delay == 500 && j % 8 != 0 { 50 } else { delay };
         let delay = if cfg == 4 { 300 } else { delay };     // silent units: longer than their timeout
